@@ -18,6 +18,62 @@ theorem stopH_res (env : Env) (c : Cfg) (k : Nat) (s : HState) (hq : Quiet s) :
   simp only [hm, hl, Bool.false_eq_true, if_false]
   cases h : stopFault env c k <;> simp [resOf]
 
+/-! ### `Handler.stop()` of an enqueue handler: the worker drains the queue, then ends -/
+
+theorem workerRun_sentinel (env : Env) (c : Cfg) (ht : StderrTame env) (items : List QItem) (s : HState)
+    (hs : QItem.sentinel ∉ items) (ha : s.workerAlive = true) :
+    (workerRun env c (items ++ [.sentinel]) s).1.workerAlive = false ∧
+    (workerRun env c (items ++ [.sentinel]) s).1.queue = [] ∧
+    (workerRun env c (items ++ [.sentinel]) s).1.sink = s.sink ++ items.flatMap (workerWrites env c) ∧
+    (workerRun env c (items ++ [.sentinel]) s).1.lockHeld = s.lockHeld ∧
+    (workerRun env c (items ++ [.sentinel]) s).1.marker = s.marker ∧
+    (workerRun env c (items ++ [.sentinel]) s).1.stopped = s.stopped := by
+  induction items generalizing s with
+  | nil => simp [workerRun]
+  | cons it rest ih =>
+    have hrest : QItem.sentinel ∉ rest := fun h => hs (by simp [h])
+    cases it with
+    | sentinel => simp at hs
+    | confirm =>
+      simp only [List.cons_append, workerRun, List.flatMap_cons, workerWrites, List.nil_append]
+      exact ih s hrest ha
+    | bad i e =>
+      simp only [List.cons_append, workerRun, Gen.workerCaught, if_true, print_tame env ht, Gen.workerGetArm,
+        List.flatMap_cons, workerWrites, List.nil_append]
+      exact ih s hrest ha
+    | msg i =>
+      have hc := rawWrite_ctl env c i s
+      have hsink := rawWrite_sink env c i s
+      obtain ⟨⟨c1, c2, c3, c4, _⟩, _, _⟩ := hc
+      have ih' := ih (rawWrite env c i s).1 hrest (c4.trans ha)
+      simp only [List.cons_append, workerRun, List.flatMap_cons]
+      split
+      · simp only [Gen.workerCaught, if_true, print_tame env ht, Gen.workerWriteArm]
+        rw [ih'.2.2.1, hsink, List.append_assoc]
+        exact ⟨ih'.1, ih'.2.1, rfl, ih'.2.2.2.1.trans c1, ih'.2.2.2.2.1.trans c2, ih'.2.2.2.2.2.trans c3⟩
+      · rw [ih'.2.2.1, hsink, List.append_assoc]
+        exact ⟨ih'.1, ih'.2.1, rfl, ih'.2.2.2.1.trans c1, ih'.2.2.2.2.1.trans c2, ih'.2.2.2.2.2.trans c3⟩
+
+/-- `stop()` of an enqueue handler in working order: everything still in the pipe is processed (the writable
+    messages reach the sink in FIFO order), the worker ends at the sentinel, and only then is the sink stopped -/
+theorem stopH_drains (env : Env) (ht : StderrTame env) (c : Cfg) (k : Nat) (s : HState) (hg : Good (c, s))
+    (he : c.enqueue = true) :
+    (stopH env c k s).st.queue = [] ∧ (stopH env c k s).st.workerAlive = false ∧
+    (stopH env c k s).st.stopped = true ∧
+    (stopH env c k s).st.sink = s.sink ++ s.queue.flatMap (workerWrites env c) := by
+  obtain ⟨⟨hl, hm⟩, _, hw, hs⟩ := hg
+  have ha : s.workerAlive = true := hw he
+  have hl : s.lockHeld = false := hl
+  have hm : s.marker = false := hm
+  have hs : QItem.sentinel ∉ s.queue := hs
+  have h := workerRun_sentinel env c ht s.queue
+    { s with marker := true, lockHeld := true, stopped := true, workerAlive := true } hs rfl
+  unfold stopH
+  rw [stopLock_eq]
+  unfold protectedLock
+  simp only [hm, hl, Bool.false_eq_true, if_false, he, ha, Bool.and_self, if_true]
+  cases hf : stopFault env c k <;> simp <;> exact ⟨h.2.1, h.1, h.2.2.2.2.2, h.2.2.1⟩
+
 /-- the sinks whose `stop()` runs no user code -/
 def NoUserStop (c : Cfg) : Prop :=
   c.kind = .callable ∨ c.kind = .coroutine ∨ ((c.kind = .stream ∨ c.kind = .streamFlush) ∧ c.stoppable = false)
